@@ -354,6 +354,14 @@ package types
 //@   preimage covers fcid
 //@ func (*Block).ID
 //@   abstract
+// decoding of the v1 Foundation update inside arbitrary data: the decoder machinery is assumed
+//@ func NewBufDecoder
+//@   trusted
+//@ func (*FoundationAddressUpdate).DecodeFrom
+//@   trusted
+//@   modifies fau
+//@ func (*Decoder).Err
+//@   trusted
 //@ func blockMerkleRoot
 //@   abstract
 // The header of a block copies the parent, nonce and timestamp and commits to the content: the
